@@ -977,6 +977,10 @@ def check_argument_path(repo: Repo, rep: Report):
             if not q.endswith(f"fickling.fickle.{cname}"):
                 continue
             n_sites += 1
+            lossy = [x for a in list(n.args) + [k.value for k in n.keywords] for x in ast.walk(a) if isinstance(x, ast.Call) and isinstance(x.func, ast.Attribute) and x.func.attr in ("encode", "decode") and any((k.arg == "errors" and not (isinstance(k.value, ast.Constant) and k.value.value == "strict")) for k in x.keywords) or (isinstance(x, ast.Call) and isinstance(x.func, ast.Attribute) and x.func.attr in ("encode", "decode") and len(x.args) >= 2 and not (isinstance(x.args[1], ast.Constant) and x.args[1].value == "strict"))]
+            if lossy:
+                rep.bad("C15.argument-path", g.qualname, f"lossy-argument-transform:{cname}", f"`{src(n)[:90]}` converts the value handed in with a non-strict error handler (`{src(lossy[0])[:60]}`): text the codec cannot represent (a lone surrogate from surrogateescape-decoded argv) is replaced instead of refused, so a different value arrives", g.file, n.lineno)
+                continue
             if cname in defective:
                 rep.bad("C15.argument-path", g.qualname, f"constructs-defective-encoder:{cname}", f"`{src(n)[:80]}` builds a {cname} opcode directly; its encoder does not round-trip ({defective[cname]} above), so the value handed in silently arrives as a different value", g.file, n.lineno)
             else:
